@@ -24,6 +24,9 @@ type NotifyFollowReader struct {
 var _ FollowReader = &NotifyFollowReader{}
 
 func NewNotify(filename string, reopen bool) (*NotifyFollowReader, error) {
+	// Changes are notified under the name, and in the directory, of the file itself
+	filename = resolveLinks(filename)
+
 	f, err := os.Open(filename)
 
 	if err != nil && !reopen {
@@ -162,6 +165,21 @@ func (s *NotifyFollowReader) closeFile() {
 		s.f.Close()
 		s.f = nil
 	}
+}
+
+// resolveLinks returns the file a symbolic link leads to (the name itself if it is none)
+func resolveLinks(filename string) string {
+	for depth := 0; depth < 16; depth++ {
+		target, err := os.Readlink(filename)
+		if err != nil {
+			break
+		}
+		if !path.IsAbs(target) {
+			target = path.Join(path.Dir(filename), target)
+		}
+		filename = target
+	}
+	return filename
 }
 
 func writeSignalNonBlock(c chan<- struct{}) {
